@@ -172,7 +172,7 @@ def interval_from(checks):
     return iv
 
 
-def helper_checks(facts, body, helpers, recursive=True):
+def helper_checks(facts, body, helpers, recursive=True, _depth=0):
     """All calls to a check helper in body (+closures): list of dict(body, bb, term, cond)."""
     hs = set(h.id for h in helpers)
     out = []
@@ -182,6 +182,14 @@ def helper_checks(facts, body, helpers, recursive=True):
             fn = t.get("fn")
             if fn and fn["def"] in hs:
                 out.append({"body": b, "bb": bi, "term": t, "cond": decode_cond(b, t["args"][0])})
+            elif fn and _depth < 2 and fn.get("res", fn.get("def")) in facts.bodies and t["args"]:
+                # a private helper of the same value (`self.verify_some_part()?`): its checks are this type's checks
+                cb = facts.bodies[fn.get("res") if fn.get("res") in facts.bodies else fn["def"]]
+                if cb.id == body.id or cb.raw.get("impl_trait") or not re.search(r"VerifyError>$", cb.raw.get("output") or ""):
+                    continue
+                o = b.origins(t["args"][0])
+                if o and all(x[0] == "param" and x[1] == 1 and x[2] in ("", "*") for x in o):
+                    out += helper_checks(facts, cb, helpers, recursive, _depth + 1)
     return out
 
 
